@@ -54,7 +54,8 @@ Requests == {[i \in 1..Len(SeqOfSet(s)) |-> RL(SeqOfSet(s)[i], VersQ(SeqOfSet(s)
 UseLayouts == {<<>>, <<Line1("use", Use("./x", "", ""))>>, <<Line1("use", Use("./x", "xl", "xe")), Line1("use", Use("./x", "", ""))>>,
                <<Stmt("use", "block", "", <<Use("./y", "", ""), Use("./x", "", "xe"), Use("./y", "", "dup")>>)>>,
                <<Stmt("use", "block", "ub", <<Use("./z", "", ""), Use("./x", "", "")>>), Line1("use", Use("./y", "yl", ""))>>}
-UseRequests == {SeqOfSet(s) : s \in SUBSET {"./x", "./y", "./new"}}
+\* (a directory that has to be written in quotes: a comment opener in the middle)
+UseRequests == {SeqOfSet(s) : s \in SUBSET {"./x", "./y", "./new", "./third_party//lib"}}
 WorkTail == <<Stmt("replace", "block", "", <<Rep(B, "", "../b", "", "", ""), Rep(A, "v1.0.0", "../a", "", "", "")>>)>>
 
 Init == phase = "hub" /\ kind = "" /\ grp = 0 /\ lay = <<>> /\ opname = "" /\ req = <<>>
